@@ -126,7 +126,11 @@ func VerifModel_http_NewRequest(method, u string, body io.Reader) (*http.Request
 	if err != nil {
 		return nil, err
 	}
-	return &http.Request{Method: method, URL: pu, Header: http.Header{}, Host: pu.Host}, nil
+	req := &http.Request{Method: method, URL: pu, Header: http.Header{}, Host: pu.Host}
+	if body != nil {
+		req.Body = io.NopCloser(body)
+	}
+	return req, nil
 }
 
 func VerifModel_ioutil_ReadAll(r io.Reader) ([]byte, error) {
@@ -231,6 +235,8 @@ func SetForm(r *http.Request, query, body url.Values, bad bool) {
 	if body != nil {
 		r.Header.Set("Content-Type", "application/x-www-form-urlencoded")
 		r.Body = io.NopCloser(strings.NewReader(body.Encode()))
+	} else if r.Body == nil {
+		r.Body = http.NoBody // a server-side request always has a body reader (ParseForm rejects a nil one for POST)
 	}
 }
 
